@@ -48,13 +48,14 @@ type Ev struct {
 	Kind string `json:"k"` // tun, tunf, mtu, refhs, anshs, roam, shifths, expire, down, up
 	// tunf: the first bind.Send toward peer FaultPeer's endpoint transmits FaultK buffers and fails
 	// ("err": some errno; "gso": conn.ErrUDPGSODisabled{RetryErr: nil} after transmitting everything)
-	FaultPeer int      `json:"fp,omitempty"`
-	FaultK    int      `json:"fk,omitempty"`
-	FaultErr  string   `json:"ferr,omitempty"`
-	Peer      int      `json:"peer,omitempty"`
-	Pkts      [][]byte `json:"pkts,omitempty"`
-	Mtu       int      `json:"mtu,omitempty"`
-	Ep        int      `json:"ep,omitempty"`
+	Sections  []ConfSection `json:"sections,omitempty"` // conf: one UAPI set operation of several peer sections (see ConfSection)
+	FaultPeer int           `json:"fp,omitempty"`
+	FaultK    int           `json:"fk,omitempty"`
+	FaultErr  string        `json:"ferr,omitempty"`
+	Peer      int           `json:"peer,omitempty"`
+	Pkts      [][]byte      `json:"pkts,omitempty"`
+	Mtu       int           `json:"mtu,omitempty"`
+	Ep        int           `json:"ep,omitempty"`
 	// oracle / observed
 	Ridx uint32 `json:"ridx,omitempty"`
 	Obs  []Obs  `json:"obs"`
@@ -85,6 +86,14 @@ type FloodStats struct {
 	Good      int  `json:"good"`
 	Offenders int  `json:"offenders"`
 	Stalled   bool `json:"stalled,omitempty"`
+}
+
+// ConfSection is one peer section of a UAPI set operation.
+type ConfSection struct {
+	Who       int  `json:"who"`          // peer index, -1 = the device's own public key
+	Ep        int  `json:"ep,omitempty"` // endpoint= line (endpoint id), 0 = none
+	Keepalive bool `json:"keepalive,omitempty"`
+	Psk       bool `json:"psk,omitempty"`
 }
 
 // poisoned: this process must not run another scenario (a step did not settle or the device did not close)
@@ -298,6 +307,35 @@ func run(sc *Scenario, src func(i int, h *hstate) *Ev) {
 			h.ep[ev.Peer] = ev.Ep
 			ev.Ridx = s.LocalIdx
 			take(out)
+		case "conf":
+			if h.down {
+				continue
+			}
+			var cfg strings.Builder
+			for _, sec := range ev.Sections {
+				if sec.Who < 0 {
+					fmt.Fprintf(&cfg, "public_key=%x\n", w.DevPub[:])
+				} else {
+					fmt.Fprintf(&cfg, "public_key=%x\n", peers[sec.Who].Pub[:])
+				}
+				if sec.Psk {
+					k := ref.NewPrivate()
+					fmt.Fprintf(&cfg, "preshared_key=%x\n", k[:])
+				}
+				if sec.Ep != 0 {
+					fmt.Fprintf(&cfg, "endpoint=%s\n", epAddr(sec.Ep))
+				}
+				if sec.Keepalive {
+					cfg.WriteString("persistent_keepalive_interval=25\n")
+				}
+			}
+			err, out := w.Set(cfg.String())
+			take(out)
+			if err != nil {
+				sc.Discarded = fmt.Sprintf("event %d: conf: %v", i, err)
+				return
+			}
+			h.ep[ev.Peer] = ev.Ep
 		case "replayinit":
 			// a byte-identical copy of the remote's latest initiation, from another address, later than
 			// HandshakeInitationRate (20 ms) after the original: must be dropped as a replay
@@ -471,6 +509,33 @@ func (g *gen) packet(h *hstate) []byte {
 	return b
 }
 
+// conf: a set operation with 2-4 peer sections in varying order: one real section moves peer p's endpoint, the others are
+// bare sections of other peers and sections for the device's own key whose lines must not touch anybody
+func (g *gen) conf(p int) *Ev {
+	r := g.r
+	ep := 50 + p
+	secs := []ConfSection{{Who: p, Ep: ep}}
+	for k := 1 + r.Intn(3); k > 0; k-- {
+		var s ConfSection
+		// (a section of another real peer would end with that peer's SendStagedPackets: one model event per conf, so none here)
+		s = ConfSection{Who: -1, Ep: 99, Keepalive: r.Intn(2) == 0, Psk: r.Intn(4) == 0}
+		if r.Intn(3) == 0 {
+			secs = append([]ConfSection{s}, secs...)
+		} else {
+			secs = append(secs, s)
+		}
+	}
+	// A keepalive line in a placeholder section is kept only in the LAST section: on the tree as found the "keepalive was
+	// switched on" flag of the UAPI parser survives into the next section, whose peer then sends one (allowed) keepalive
+	// that the model does not predict (see notes/C01.md, round 9)
+	for i := range secs {
+		if i != len(secs)-1 {
+			secs[i].Keepalive = false
+		}
+	}
+	return &Ev{Kind: "conf", Peer: p, Ep: ep, Sections: secs}
+}
+
 var mtus = []int{0, 1, 15, 16, 17, 576, 1280, 1420, 1500, 9000, 65535, 70000}
 
 func (g *gen) next(i int, h *hstate) *Ev {
@@ -548,8 +613,10 @@ func (g *gen) next(i int, h *hstate) *Ev {
 		return &Ev{Kind: "anshs", Peer: p, Ep: ep}
 	case x < 90:
 		return &Ev{Kind: "roam", Peer: p, Ep: 30 + p}
-	case x < 92:
+	case x < 91:
 		return &Ev{Kind: "replayinit", Peer: p, Ep: 40 + p}
+	case x < 92:
+		return g.conf(p)
 	case x < 97:
 		return &Ev{Kind: "shifths", Peer: p}
 	default:
@@ -680,6 +747,15 @@ func directed() []*Scenario {
 		{Kind: "tun", Pkts: [][]byte{v4to([4]byte{10, 1, 9, 3}, 64, 5), v4to([4]byte{10, 1, 2, 3}, 65, 6)}},
 	}
 	out = append(out, sc8)
+	// configuration text: the device's own key as a non-first section with endpoint / keepalive lines
+	sc9 := &Scenario{Kind: "scenario", Gen: "directed-config-text", NPeers: 2, Table: tbl, MTU: 1420, TunBatch: 4, Eps: []int{1, 2}}
+	sc9.Evs = []Ev{{Kind: "refhs", Peer: 0, Ep: 1}, {Kind: "refhs", Peer: 1, Ep: 2},
+		{Kind: "conf", Peer: 0, Ep: 50, Sections: []ConfSection{{Who: 0, Ep: 50}, {Who: -1, Ep: 99, Keepalive: true}}},
+		{Kind: "tun", Pkts: [][]byte{v4to([4]byte{10, 1, 9, 1}, 60, 1), v4to([4]byte{10, 1, 2, 1}, 61, 2)}},
+		{Kind: "conf", Peer: 1, Ep: 51, Sections: []ConfSection{{Who: -1, Ep: 99}, {Who: -1, Ep: 98}, {Who: 1, Ep: 51}, {Who: -1, Ep: 97, Keepalive: true}}},
+		{Kind: "tun", Pkts: [][]byte{v4to([4]byte{10, 1, 9, 2}, 62, 3), v4to([4]byte{10, 1, 2, 2}, 63, 4)}},
+	}
+	out = append(out, sc9)
 	// bind.Send errors: what the bind did not transmit is never transmitted, nothing goes out twice, and
 	// unroutable plaintext read into recycled buffers never reaches the wire
 	sc6 := &Scenario{Kind: "scenario", Gen: "directed-send-errors", NPeers: 2, Table: tbl, MTU: 1420, TunBatch: 4, Eps: []int{1, 2}}
@@ -874,6 +950,8 @@ func gallina(sc *Scenario) string {
 			fmt.Fprintf(&b, "RRoam %d %d", ev.Peer, ev.Ep)
 		case "replayinit":
 			fmt.Fprintf(&b, "RReplayInit %d %d", ev.Peer, ev.Ep)
+		case "conf":
+			fmt.Fprintf(&b, "RSetEp %d %d", ev.Peer, ev.Ep)
 		case "shifths":
 			fmt.Fprintf(&b, "RShift %d", ev.Peer)
 		case "expire":
